@@ -556,7 +556,9 @@ def evaluate_z3_seq_extract(
         construct_result(
             lambda args: cast(str, args[0])[
                 cast(int, args[1]) : cast(int, args[1]) + cast(int, args[2])
-            ],
+            ]
+            if cast(int, args[1]) >= 0 and cast(int, args[2]) > 0
+            else "",
             children_results,
         )
     )
